@@ -242,6 +242,7 @@ type simClient struct {
 	pingResp  int
 	lastTxAt  int64
 	sid       string
+	writeFailed bool
 }
 
 // recvRec: what a node emitted (its own local updates, src "emit") or was handed (gossip,
@@ -963,9 +964,27 @@ func (w *world) applyStep(e *event, s *Step) {
 				}
 				if succ != nil {
 					host := w.nodes[cl.node]
-					_, err := host.dstate.SessionMetadatas().Get(succ.sid)
-					know.newKnown = err == nil
-					_, err = host.dstate.SessionMetadatas().Get(cl.sid)
+					// "the host knows that this session has been displaced": it hosts the successor, or
+					// the LWW fold of what it has been handed says the successor's record is live or
+					// this session's own record has been removed
+					know.newKnown = succ.node == cl.node
+					var fs, fo kEntry
+					for _, r := range w.recv {
+						if r.Node == cl.node && r.Src != "emit" {
+							for _, e := range r.Entries {
+								if e.Key == "S|"+succ.sid && e.Stamp > fs.Stamp {
+									fs = e
+								}
+								if e.Key == "S|"+cl.sid && e.Stamp > fo.Stamp {
+									fo = e
+								}
+							}
+						}
+					}
+					if fs.Live || (fo.Stamp > 0 && !fo.Live) {
+						know.newKnown = true
+					}
+					_, err := host.dstate.SessionMetadatas().Get(cl.sid)
 					know.oldLive = err == nil
 				}
 				st := w.send(cl, tPINGREQ, encSimple(tPINGREQ), 0, "")
@@ -982,6 +1001,12 @@ func (w *world) applyStep(e *event, s *Step) {
 			cl.conn.cut()
 			cl.downAt = w.nowMs()
 			w.statAdd("fault.link_cut", 1)
+		}
+	case "writefail":
+		// the link will die under the broker's next write to this client
+		if cl := w.clients[s.C]; cl != nil && cl.downAt < 0 {
+			cl.conn.armWriteFailure()
+			w.statAdd("fault.write_failure_armed", 1)
 		}
 	case "close":
 		if cl := w.clients[s.C]; cl != nil && cl.downAt < 0 {
@@ -1119,6 +1144,11 @@ func (w *world) collect() {
 				lines = append(lines, w.canon(cl, p))
 				w.react(cl, p, ch.atMs)
 			}
+		}
+		if at := cl.conn.writeFailedAt(); at >= 0 && cl.downAt < 0 {
+			cl.downAt = at
+			cl.writeFailed = true
+			w.statAdd("fault.link_died_under_write", 1)
 		}
 		if closed, at := cl.conn.brokerClosed(); closed && !cl.sawClose {
 			cl.sawClose = true
@@ -1461,6 +1491,9 @@ func (w *world) stopNode(i int, fixedDelay int64) {
 		}
 	}
 	base := int64(1000 + w.keyed("leavebase", i).Intn(5000))
+	if b := w.c.knob("leave_base_ms", 0); b > 0 {
+		base = b // fast failure detection: datagrams still in flight can arrive after the notification
+	}
 	spread := w.c.knob("leave_spread_ms", 1200)
 	for _, cl := range w.clients {
 		if cl.node == i && cl.downAt < 0 {
